@@ -12,7 +12,7 @@ import codecs
 import z3
 
 from .core import Unsupported, ctx
-from .seq import SSeq, WB, WS, bvv
+from .seq import SSeq, WB, WS, bvv, lift
 
 
 def _norm(enc):
@@ -97,6 +97,9 @@ def _encode(s: SSeq, encoding="utf-8", errors="strict") -> SSeq:
                 out.append((_ext8(z3.LShR(e, 6)) & 0x3F) | 0x80)
                 out.append((_ext8(e) & 0x3F) | 0x80)
         return SSeq("bytes", out, len(out))
+    if enc == "idna" and s.is_concrete():
+        # fully concrete text: the real codec decides (IDN labels included)
+        return lift(s.concrete().encode("idna"))
     if enc == "idna":
         # pure ASCII input only: labels must be 1..63 characters (an empty label is
         # allowed only at the very end), the result is the input unchanged
@@ -139,6 +142,8 @@ def _decode(b: SSeq, encoding="utf-8", errors="strict") -> SSeq:
             else:
                 raise Unsupported(f"decode errors={errors}")
         return SSeq("str", out, len(out))
+    if enc == "idna" and b.is_concrete():
+        return lift(bytes(b.concrete()).decode("idna"))
     if enc == "idna":
         # ASCII input only.  A label without the ACE prefix decodes to itself; for an
         # 'xn--' label the punycode decoder (C/stdlib) is modelled by its contract: it raises
